@@ -5,6 +5,7 @@ cd "$(dirname "$0")/.."
 for d in seeded/*/; do
   id=$(basename $d); prop=${id%-*}
   if grep -q '"obsolete": true' $d/meta.json 2>/dev/null; then echo "$id obsolete (see meta.json)"; continue; fi
+  if grep -q '"unreachable_here": true' $d/meta.json 2>/dev/null; then echo "$id not reachable in this sandbox (see meta.json)"; continue; fi
   other=$(sed -n 's/.*"sweep_check": "\(C[0-9]*\)".*/\1/p' $d/meta.json 2>/dev/null)
   if [ -n "$other" ]; then prop=$other; fi
   out=$(tools/seedrun.sh $d/patch.diff $prop 2>&1 | grep "^== $prop rc=" | head -1 | cut -c1-120)
